@@ -71,6 +71,20 @@ class Machine:
             pass
         return names
 
+    def lineal_conflict(self, s, t):
+        """Would making t a base of s let some space inherit, directly or through other spaces, from one of
+        its own ancestors or descendants in the containment tree?"""
+        try:
+            ups = rm.mro(t)
+        except rm.NoMRO:
+            return True
+        downs = [s] + [x for x in rm.subs_of(self.ref, s)] if s.name in getattr(s.parent, "spaces", {}) and s.parent.spaces[s.name] is s else [s]
+        for x in ups:
+            for y in downs:
+                if x is y or x.is_in(y) or y.is_in(x):
+                    return True
+        return False
+
     def g_new_space(self):
         m = self.ref
         rng = self.rng
@@ -88,7 +102,8 @@ class Machine:
             cands = [s for s in m.all_spaces() if s is not parent and not (isinstance(parent, rm.RSpace) and parent.is_in(s))]
             if not self.cfg.get("lineal_bases"):
                 # no inheritance between a space and its own ancestors or descendants (see DESIGN limits)
-                cands = [s for s in cands if not (isinstance(parent, rm.RSpace) and (s.is_in(parent) or parent.is_in(s)))]
+                tmp = rm.RSpace(name, parent)
+                cands = [s for s in cands if not self.lineal_conflict(tmp, s)]
             rng.shuffle(cands)
             bases = [s.path() for s in cands[:rng.choice([1, 1, 2])]]
         op = {"op": "new_space", "parent": parent.path(), "name": name, "bases": bases}
@@ -212,7 +227,7 @@ class Machine:
 
         def walk(e):
             if isinstance(e, list):
-                if e and e[0] in ("a", "call") and isinstance(e[1], list) and len(e[1]) >= 2 and e[1][0] == "_model" \
+                if len(e) >= 3 and e[0] in ("a", "call") and isinstance(e[1], list) and len(e[1]) >= 2 and e[1][0] == "_model" \
                         and isinstance(e[1][1], str):
                     names.add(e[1][1])
                 for x in e:
@@ -261,7 +276,7 @@ class Machine:
         if add:
             cands = [t for t in self.ref.all_spaces() if t is not s and t not in s.bases]
             if not self.cfg.get("lineal_bases"):
-                cands = [t for t in cands if not (t.is_in(s) or s.is_in(t))]
+                cands = [t for t in cands if not self.lineal_conflict(s, t)]
             if not cands:
                 return None
             rng.shuffle(cands)
